@@ -886,6 +886,104 @@ def config_preserved(chk, F, ws, rule):
     return n
 
 
+def file_list_order(chk, F, rule):
+    """R09e: the file list that reindex re-adds is in ascending file-id order, the order in which a fresh analysis received the files:
+    Vfs::get_all_file_ids / get_all_local_file_ids enumerate `file_data` (the Vec indexed by file id) or sort their result."""
+    import dataflow
+    name = lambda c: c.get("r") or c.get("f") or ""
+    chk.rule(rule, "Vfs::get_all_file_ids / get_all_local_file_ids list the files in ascending id order (an enumerate() over the id-indexed "
+                   "`file_data`, or a sorted result): reindex then analyses the files in the order a fresh analysis saw them")
+    n = 0
+    for fn in ("get_all_file_ids", "get_all_local_file_ids"):
+        b = F.bodies.get("emmylua_code_analysis::vfs::Vfs::" + fn)
+        if b is None:
+            raise RuleBroken("Vfs::%s not found" % fn)
+        n += 1
+
+        def chain(l, seen, depth=0):
+            """(fields the iterator chain starts from, adaptor names on the way)"""
+            flds, ads = set(), set()
+            if l in seen or depth > 12:
+                return flds, ads
+            seen.add(l)
+            for r in dataflow.roots(b, l):
+                if r[0] == "call":
+                    c = b.blocks[r[1]][2][1]
+                    ads.add(name(c).split("::")[-1])
+                    if c["a"]:
+                        la = dataflow.operand_local(c["a"][0])
+                        if la is not None:
+                            f2, a2 = chain(la, seen, depth + 1)
+                            flds |= f2
+                            ads |= a2
+                elif r[0] == "place":
+                    fs = [e[2] for e in r[2] if isinstance(e, (list, tuple)) and e[0] == "f" and len(e) > 2]
+                    flds |= set(fs) if fs else {"?"}
+                    if not fs:
+                        f2, a2 = chain(r[1], seen, depth + 1)
+                        flds |= f2
+                        ads |= a2
+                else:
+                    flds.add("?" + r[0])
+            return flds, ads
+        flds, ads = chain(0, set())
+        sorts = [c["l"] for bb, c in b.calls() if name(c).split("::")[-1].startswith(("sort", "sort_unstable"))]
+        ok = bool(sorts) or (flds == {"file_data"} and "enumerate" in ads)
+        chk.check(ok, rule, "vfs-order:" + fn,
+                  "Vfs::%s no longer lists the files by enumerating the id-indexed `file_data` (sources: %s) and does not sort its result: the "
+                  "order depends on the history of adds/removes, reindex analyses the files in that order and order-sensitive facts (which "
+                  "declaration of a global comes first) differ from a fresh analysis" % (fn, sorted(flds)), b.loc(),
+                  witness={"sources": sorted(flds), "adaptors": sorted(ads)},
+                  sample={"rule": rule, "fn": fn, "verdict": "ascending id order"})
+    return n
+
+
+def config_setters_unconditional(chk, F, idx, rule):
+    """R09f: a setter of a configuration-mirror field (the fields clear() deliberately keeps) writes it on every path: the mirror always
+    equals the configuration last pushed by update_config, which is what reindex relies on when it keeps those fields."""
+    chk.rule(rule, "every method that directly writes a configuration-mirror field of an index writes it on every path from entry to return "
+                   "(no 'unchanged, skip' early return): reindex keeps these fields and relies on them being current")
+    n = 0
+    for (sx, f), reason in sorted(EXEMPT_CLEAR.items()):
+        if "configuration mirror" not in reason:
+            continue
+        X = [x for x in idx if short(x) == sx]
+        if not X:
+            raise RuleBroken("exempt type %s not found" % sx)
+        X = X[0]
+        for b in F.bodies.values():
+            if b.kind != "fn" or b.get("impl_self") is None or b.ty(b.get("impl_self"))[3] != X or b.id == idx[X]["clear"]:
+                continue
+            if b.argc < 1 or not b.local_ty_str(1).startswith("&mut "):
+                continue
+            if short(b.id) in ("new", "default"):
+                continue
+            wblocks = set()
+            for bi, blk in enumerate(b.blocks):
+                if blk[0]:
+                    continue
+                for st in blk[1]:
+                    if st[0] != "a":
+                        continue
+                    for place, is_w in ((st[1], True), (st[2][2] if st[2][0] == "ref" and st[2][1] == "m" else None, True)):
+                        if place is None or len(place) < 3 or place[0] != 1 or place[1] != "*":
+                            continue
+                        e = place[2]
+                        if isinstance(e, list) and e[0] == "f" and e[2] == f:
+                            wblocks.add(bi)
+            if not wblocks:
+                continue
+            n += 1
+            p = cfgutil.paths_avoiding(b.succ_map(), 0, set(b.returns()), wblocks)
+            chk.check(p is None, rule, "%s.%s@%s" % (sx, f, short(b.id)),
+                      "%s::%s writes the configuration mirror `%s` but has a path to its return that leaves the old value in place: after a "
+                      "configuration change that path keeps stale settings, which reindex (clear() keeps this field by design) then analyses under"
+                      % (sx, short(b.id), f), b.loc(), witness={"path_blocks": p},
+                      sample={"rule": rule, "setter": "%s::%s" % (sx, short(b.id)), "field": f, "verdict": "written on every path"})
+    chk.floor("configuration-mirror setters", n, 2)
+    return n
+
+
 def run_c09(chk, F, tier):
     chk.rule("R09a", "for every impl LuaIndex for X: fields written by any &mut-self method are written by `clear` "
                      "(exempt: configuration mirrors and workspace roots, which are inputs)")
@@ -906,6 +1004,8 @@ def run_c09(chk, F, tier):
     n = delegation(chk, F, "R09b", "clear")
     chk.floor("DbIndex LuaIndex fields", n, 14)
     reindex_order(chk, F, "R09c")
+    file_list_order(chk, F, "R09e")
+    config_setters_unconditional(chk, F, idx, "R09f")
     chk.rule("R09d", "clear() preserves the configuration mirrors and workspace roots (inputs, not facts)")
     n = config_preserved(chk, F, ws, "R09d")
     chk.floor("configuration fields", n, 4)
